@@ -3,16 +3,16 @@ package verifcheck
 import "testing"
 
 func c04Params() GenParams {
-	return GenParams{MinOps: 4, MaxOps: 40, WKV: 2, WCreate: 3, WDrop: 1, WAdd: 10, WBatch: 4, WImport: 1, WDel: 6, WMeta: 4, WReinforce: 2, WEvolve: 2,
+	return GenParams{RecreatePct: 15, MinOps: 4, MaxOps: 40, WKV: 2, WCreate: 3, WDrop: 1, WAdd: 10, WBatch: 4, WImport: 1, WDel: 6, WMeta: 4, WReinforce: 2, WEvolve: 2,
 		WLink: 3, WUnlink: 2, WConfig: 1, WAutoLinks: 1, WSnapshot: 1, WRewrite: 1, WCompress: 1, WMaint: 4, WFlush: 0, WRestart: 1,
 		InvalidPct: 8, AllowInt8: true, AllowMemory: true, AllowAutoLink: true, AllowText: true, SmallEfC: true, BigBatch: true}
 }
 
 func TestVerif_C04_model(t *testing.T) {
 	runHistoryProperty(t, "C04", "model",
-		"rapid-generated histories of 4-40 engine ops over 3 indexes x 8 ids (+batch/evolved ids), all metric x precision configs, interpreted against the real engine and a reference map-of-records model; after EVERY op the full read-out (cursor ids, count, VGet/VGetMany of every id ever used, index info/configs, KV, full edge history) must equal the model; non-trivial = history re-adds a deleted id, or has a batch of >= 8 items (parallel path with efConstruction 8), or runs maintenance after a delete",
+		"rapid-generated histories of 4-40 engine ops over 3 indexes x 8 ids (+batch/evolved ids), all metric x precision configs, interpreted against the real engine and a reference map-of-records model; after EVERY op the full read-out (cursor ids, count, VGet/VGetMany of every id ever used, index info/configs, KV, full edge history) must equal the model; non-trivial = history re-adds a deleted id, or has a batch on an index that already handed out >= efConstruction ids (parallel insert path; some efConstruction-8 indexes are warmed up with 9 vectors), or runs maintenance after a delete",
 		c04Params(), HistoryMode{CheckEveryOp: true}, 300, 20000,
 		func(l map[string]bool) bool {
-			return l["re-add-of-deleted-id"] || l["batch>=8"] || l["maintenance-after-delete"]
+			return l["re-add-of-deleted-id"] || l["batch-on-parallel-path"] || l["maintenance-after-delete"]
 		})
 }
